@@ -395,6 +395,55 @@ def _d4(chk, fb):
                     witness={"history": "two successive weighted picks without replacement from {A,B,C,D} with weights {0,1,1,1}"})
 
 
+def _d5(chk, fb):
+    """sampling with replacement never removes: inside getSample, a pick made on the branch taken when 'replace' is true resolves
+    (overload resolution on the argument's constness, read from the typed syntax tree) to a pickOne that cannot modify the
+    vector it draws from - its first parameter is a const reference - or passes replace = true explicitly.  The removing overload
+    pickOne(std::vector<T>&, bool replace = false) is selected silently for a non-const lvalue argument; the sample then has no
+    repeats and a request longer than the source throws"""
+    n = 0
+    for f in fb.concrete_fns():
+        if f.body is None or f.name != "getSample" or "RandomTools" not in (f.cls or ""):
+            continue
+        cfg = f.cfg
+        rp = [p_["name"] for p_ in f.params if p_.get("ty") in ("bool", "const bool")]
+        if not rp:
+            continue
+        rname = rp[0]
+        for c in f.calls():
+            if c["callee"]["name"] != "pickOne":
+                continue
+            b = cfg.stmt_block(c)
+            if b is None:
+                continue
+            under_true, _ = e1.guarded_by(cfg, b, lambda facts: any(t_ == rname and tr_ is True for t_, tr_, _ in facts))
+            if not under_true:
+                continue
+            n += 1
+            pt = c["callee"].get("ptypes") or []
+            args = f.args(c)
+            explicit = None
+            for k_, ty in enumerate(pt):
+                if ty in ("bool", "const bool") and k_ < len(args):
+                    a_ = strip(args[k_])
+                    if a_["k"] == "CXXBoolLiteralExpr":
+                        explicit = bool(a_["val"])
+                    elif a_["k"] == "DeclRefExpr" and a_["decl"]["name"] == rname:
+                        explicit = True
+            con = "replace-branch-pick:" + render(c)[:40]
+            if pt and pt[0].startswith("const "):
+                chk.proved("D5", f.key, con, f.loc(c), "resolves to %s(%s): cannot remove what it picks" % (c["callee"]["name"], pt[0]))
+            elif explicit is True:
+                chk.proved("D5", f.key, con, f.loc(c), "the removing overload is called with replace = true")
+            elif pt:
+                chk.refuted("D5", f.key, con, f.loc(c),
+                            "on the 'with replacement' branch '%s' resolves to the overload taking '%s' with replace defaulting to false: every pick removes the element, so the sample has no repeats and a sample longer than the source throws EmptyVectorException" % (render(c)[:60], pt[0]),
+                            witness={"input": "getSample of 8 out of 3 elements with replace = true"})
+            else:
+                chk.unknown("D5", f.key, con, f.loc(c), "callee not resolved")
+    chk.floor("D5", "picks on the with-replacement branch of getSample", n, 2)
+
+
 def instantiations(fb, headers):
     return ("template int bpp::RandomTools::pickOne<int>(std::vector<int>&, bool);\n"
             "template int bpp::RandomTools::pickOne<int>(const std::vector<int>&);\n"
@@ -414,6 +463,8 @@ def run(chk, fb, tier):
     _d2(chk, fb)
     _d3(chk, fb)
     _d4(chk, fb)
+    chk.rule("D5", "picks on the with-replacement branch of getSample resolve to a pickOne overload that cannot remove elements (const reference parameter) or pass replace = true")
+    _d5(chk, fb)
     from . import argswap as _argswap
     chk.rule("DA", "argument/parameter name agreement at forwarding calls in the anchored units (same-typed parameters must not be swapped)")
     _af = ('src/Bpp/Numeric/Random/RandomTools.h', 'src/Bpp/Numeric/Random/RandomTools.cpp', 'src/Bpp/Numeric/Random/ContingencyTableGenerator.cpp', 'src/Bpp/Numeric/Stat/ContingencyTableTest.cpp', 'src/Bpp/Numeric/Prob/AbstractDiscreteDistribution.cpp', 'src/Bpp/Numeric/Prob/GammaDiscreteDistribution.h', 'src/Bpp/Numeric/Prob/GaussianDiscreteDistribution.h', 'src/Bpp/Numeric/Prob/ExponentialDiscreteDistribution.h', 'src/Bpp/Numeric/Prob/BetaDiscreteDistribution.h', 'src/Bpp/Numeric/Hmm/AbstractHmmTransitionMatrix.cpp')
